@@ -31,10 +31,10 @@ type panicRec struct {
 }
 
 type runRec struct {
-	Agent   string  `json:"agent"`
-	Line    int     `json:"line"` // 1-based line of the run's begin record
-	History int     `json:"history"`
-	Seed    int64   `json:"seed"`
+	Agent   string `json:"agent"`
+	Line    int    `json:"line"` // 1-based line of the run's begin record
+	History int    `json:"history"`
+	Seed    int64  `json:"seed"`
 }
 
 type traceOutput struct {
